@@ -3,6 +3,8 @@ import Mathlib.Algebra.Order.Field.Basic
 import Mathlib.Tactic.Linarith
 import Mathlib.Tactic.Ring
 import Mathlib.Tactic.Positivity
+import Mathlib.Tactic.NormNum
+import Mathlib.Data.List.Nodup
 /-!
 # Dual contouring: index arithmetic, quad topology and orientation, clipping
 
@@ -35,7 +37,7 @@ theorem cubeAt_some (nx ny rows : Nat) (x y z : Int) (c : Nat × Nat × Nat) :
 theorem cubeAt_of_valid (nx ny rows x y z : Nat) (h : validCube nx ny rows x y z = true) :
     cubeAt nx ny rows x y z = some (x, y, z) := by
   simp only [validCube, Bool.and_eq_true, decide_eq_true_eq] at h
-  rw [cubeAt_some]; omega
+  rw [cubeAt_some]; dsimp only; omega
 
 /-! ### coordinate form of `c ∈ EdgeCubes(e) ⇔ e ∈ CubeEdges(c)` -/
 
@@ -97,15 +99,15 @@ theorem edgeCubesC_interior (nx ny rows : Nat) (e : EdgeC) (h : interiorEdge nx 
   | 0, h =>
     simp only [interiorEdge, Bool.and_eq_true, decide_eq_true_eq] at h
     simp only [edgeCubesC, fourCells, List.map_cons, List.map_nil, List.cons.injEq, and_true, cubeAt_some]
-    omega
+    (repeat' constructor) <;> omega
   | 1, h =>
     simp only [interiorEdge, Bool.and_eq_true, decide_eq_true_eq] at h
     simp only [edgeCubesC, fourCells, List.map_cons, List.map_nil, List.cons.injEq, and_true, cubeAt_some]
-    omega
+    (repeat' constructor) <;> omega
   | 2, h =>
     simp only [interiorEdge, Bool.and_eq_true, decide_eq_true_eq] at h
     simp only [edgeCubesC, fourCells, List.map_cons, List.map_nil, List.cons.injEq, and_true, cubeAt_some]
-    omega
+    (repeat' constructor) <;> omega
   | n + 3, h => simp [interiorEdge] at h
 
 /-- A border edge misses at least one of its four cells (`appendMesh` would panic on it). -/
@@ -261,5 +263,361 @@ theorem edgeCubesC_valid (nx ny rows : Nat) (e : EdgeC) (q : Nat × Nat × Nat)
   split at h <;>
     (simp only [List.mem_cons, List.not_mem_nil, or_false] at h
      rcases h with h | h | h | h <;> exact cubeAt_valid _ _ _ _ _ _ _ h.symm)
+
+theorem cubeEdgesC_valid (nx ny rows x y z : Nat) (h : validCube nx ny rows x y z = true) (e : EdgeC)
+    (he : e ∈ cubeEdgesC x y z) : validEdge nx ny rows e = true := by
+  simp only [validCube, Bool.and_eq_true, decide_eq_true_eq] at h
+  simp only [cubeEdgesC, List.mem_cons, List.not_mem_nil, or_false] at he
+  rcases he with rfl|rfl|rfl|rfl|rfl|rfl|rfl|rfl|rfl|rfl|rfl|rfl <;>
+    (simp only [validEdge, Bool.and_eq_true, decide_eq_true_eq]; omega)
+
+theorem validCube_of_lt (nx ny rows c : Nat) (h : c < numCubes nx ny rows) :
+    validCube nx ny rows (cubeCoord nx ny c).1 (cubeCoord nx ny c).2.1 (cubeCoord nx ny c).2.2 = true := by
+  unfold numCubes at h
+  have ha : 0 < nx - 1 := by
+    rcases Nat.eq_zero_or_pos (nx - 1) with h0 | h0
+    · rw [h0] at h; simp at h
+    · exact h0
+  have hb : 0 < ny - 1 := by
+    rcases Nat.eq_zero_or_pos (ny - 1) with h0 | h0
+    · rw [h0] at h; simp at h
+    · exact h0
+  have h1 : c % (nx - 1) < nx - 1 := Nat.mod_lt _ ha
+  have h2 : c / (nx - 1) % (ny - 1) < ny - 1 := Nat.mod_lt _ hb
+  have h3 : c / (nx - 1) / (ny - 1) < rows - 1 := by
+    rw [Nat.div_lt_iff_lt_mul hb, Nat.div_lt_iff_lt_mul ha]
+    calc c < (nx - 1) * (ny - 1) * (rows - 1) := h
+      _ = (rows - 1) * (ny - 1) * (nx - 1) := by
+        rw [Nat.mul_comm ((nx - 1) * (ny - 1)), Nat.mul_comm (nx - 1), Nat.mul_assoc]
+  have hcc : cubeCoord nx ny c = (c % (nx - 1), c / (nx - 1) % (ny - 1), c / (nx - 1) / (ny - 1)) := rfl
+  rw [hcc]
+  generalize c % (nx - 1) = a at *
+  generalize c / (nx - 1) % (ny - 1) = b at *
+  generalize c / (nx - 1) / (ny - 1) = d at *
+  simp only [validCube, Bool.and_eq_true, decide_eq_true_eq]
+  omega
+
+theorem validEdge_of_lt (nx ny rows e : Nat) (h : e < numEdges nx ny rows) :
+    validEdge nx ny rows (edgeDecode nx ny e) = true := by
+  unfold numEdges at h
+  have hdm := Nat.div_add_mod e (layerEdges nx ny)
+  have hLdef : layerEdges nx ny = xCount nx ny + yCount nx ny + zCount nx ny := rfl
+  have hL : 0 < layerEdges nx ny := by
+    rcases Nat.eq_zero_or_pos (layerEdges nx ny) with h0 | h0
+    · have hx : xCount nx ny = 0 := by omega
+      have hy : yCount nx ny = 0 := by omega
+      have hz : zCount nx ny = 0 := by omega
+      rw [hx, hy, hz] at h; simp at h
+    · exact h0
+  have hr : e % layerEdges nx ny < layerEdges nx ny := Nat.mod_lt _ hL
+  -- z < rows, and z + 1 < rows for Z-edges
+  have key : ∀ z r : Nat, layerEdges nx ny * z + r = e → r < layerEdges nx ny →
+      z < rows ∧ (xCount nx ny + yCount nx ny ≤ r → z + 1 < rows) := by
+    intro z r hzr hrl
+    have e1 : (xCount nx ny + yCount nx ny) * rows + zCount nx ny * (rows - 1)
+        ≤ layerEdges nx ny * rows := by
+      have hz := Nat.mul_le_mul_left (zCount nx ny) (Nat.sub_le rows 1)
+      rw [hLdef, Nat.add_mul (xCount nx ny + yCount nx ny)]
+      omega
+    constructor
+    · by_contra hge
+      have : layerEdges nx ny * rows ≤ layerEdges nx ny * z := Nat.mul_le_mul_left _ (by omega)
+      omega
+    · intro hxy
+      by_contra hge
+      have hz : rows - 1 ≤ z := by omega
+      have h1 : layerEdges nx ny * (rows - 1) ≤ layerEdges nx ny * z := Nat.mul_le_mul_left _ hz
+      have h2 : layerEdges nx ny * (rows - 1)
+          = (xCount nx ny + yCount nx ny) * (rows - 1) + zCount nx ny * (rows - 1) := by
+        rw [hLdef, Nat.add_mul]
+      rcases Nat.eq_zero_or_pos rows with h0 | h0
+      · subst h0; simp at h
+      · have h3 : (xCount nx ny + yCount nx ny) * rows
+            = (xCount nx ny + yCount nx ny) * (rows - 1) + (xCount nx ny + yCount nx ny) := by
+          conv_lhs => rw [show rows = (rows - 1) + 1 by omega]
+          rw [Nat.mul_add, Nat.mul_one]
+        omega
+  have hk := key (e / layerEdges nx ny) (e % layerEdges nx ny) hdm hr
+  unfold edgeDecode
+  by_cases h1 : e % layerEdges nx ny < xCount nx ny
+  · simp only [h1, if_true, validEdge, Bool.and_eq_true, decide_eq_true_eq]
+    have ha : 0 < nx - 1 := by
+      rcases Nat.eq_zero_or_pos (nx - 1) with h0 | h0
+      · unfold xCount at h1; rw [h0] at h1; simp at h1
+      · exact h0
+    have hm : e % layerEdges nx ny % (nx - 1) < nx - 1 := Nat.mod_lt _ ha
+    have hd : e % layerEdges nx ny / (nx - 1) < ny := by
+      rw [Nat.div_lt_iff_lt_mul ha, Nat.mul_comm]; exact h1
+    have hk1 := hk.1
+    generalize e % layerEdges nx ny % (nx - 1) = a at *
+    generalize e % layerEdges nx ny / (nx - 1) = b at *
+    generalize e / layerEdges nx ny = d at *
+    omega
+  · by_cases h2 : e % layerEdges nx ny < xCount nx ny + yCount nx ny
+    · simp only [h1, h2, if_true, if_false, validEdge, Bool.and_eq_true, decide_eq_true_eq]
+      have h2' : e % layerEdges nx ny - xCount nx ny < (ny - 1) * nx := by
+        have : yCount nx ny = (ny - 1) * nx := rfl
+        omega
+      have ha : 0 < nx := by
+        rcases Nat.eq_zero_or_pos nx with h0 | h0
+        · rw [h0] at h2'; simp at h2'
+        · exact h0
+      have hm : (e % layerEdges nx ny - xCount nx ny) % nx < nx := Nat.mod_lt _ ha
+      have hd : (e % layerEdges nx ny - xCount nx ny) / nx < ny - 1 := by
+        rw [Nat.div_lt_iff_lt_mul ha]; exact h2'
+      have hk1 := hk.1
+      generalize (e % layerEdges nx ny - xCount nx ny) % nx = a at *
+      generalize (e % layerEdges nx ny - xCount nx ny) / nx = b at *
+      generalize e / layerEdges nx ny = d at *
+      omega
+    · simp only [h1, h2, if_false, validEdge, Bool.and_eq_true, decide_eq_true_eq]
+      have h2' : e % layerEdges nx ny - (xCount nx ny + yCount nx ny) < ny * nx := by
+        have : zCount nx ny = nx * ny := rfl
+        rw [Nat.mul_comm]; omega
+      have ha : 0 < nx := by
+        rcases Nat.eq_zero_or_pos nx with h0 | h0
+        · rw [h0] at h2'; simp at h2'
+        · exact h0
+      have hm : (e % layerEdges nx ny - (xCount nx ny + yCount nx ny)) % nx < nx := Nat.mod_lt _ ha
+      have hd : (e % layerEdges nx ny - (xCount nx ny + yCount nx ny)) / nx < ny := by
+        rw [Nat.div_lt_iff_lt_mul ha]; exact h2'
+      have hk2 := hk.2 (by omega)
+      generalize (e % layerEdges nx ny - (xCount nx ny + yCount nx ny)) % nx = a at *
+      generalize (e % layerEdges nx ny - (xCount nx ny + yCount nx ny)) / nx = b at *
+      generalize e / layerEdges nx ny = d at *
+      omega
+
+/-- **`c ∈ EdgeCubes(e) ⇔ e ∈ CubeEdges(c)`** on the flat indices the Go code uses, for every grid
+size, every edge index `e < len(Edges)` and every cube index `c < len(Cubes)`. -/
+theorem edgeCubes_iff_cubeEdges (nx ny rows e c : Nat)
+    (he : e < numEdges nx ny rows) (hc : c < numCubes nx ny rows) :
+    some c ∈ edgeCubes nx ny rows e ↔ e ∈ cubeEdges nx ny c := by
+  have hve := validEdge_of_lt nx ny rows e he
+  have hvc := validCube_of_lt nx ny rows c hc
+  constructor
+  · intro h
+    obtain ⟨q, hq, hqc⟩ := (mem_edgeCubes_iff nx ny rows e c).1 h
+    have hqv := edgeCubesC_valid nx ny rows _ q hq
+    have hcoord : cubeCoord nx ny c = q := by
+      rw [← hqc]
+      simp only [validCube, Bool.and_eq_true, decide_eq_true_eq] at hqv
+      rw [cubeCoord_cubeIdx nx ny q.1 q.2.1 q.2.2 (by omega) (by omega)]
+    have hm := (edgeCubesC_mem_iff nx ny rows _ q hve hqv).1 hq
+    unfold cubeEdges
+    rw [hcoord]
+    exact List.mem_map.2 ⟨_, hm, edgeEncode_edgeDecode nx ny e⟩
+  · intro h
+    unfold cubeEdges at h
+    obtain ⟨e', he', hee⟩ := List.mem_map.1 h
+    have hv' := cubeEdgesC_valid nx ny rows _ _ _ hvc e' he'
+    have hdec : edgeDecode nx ny e = e' := by rw [← hee]; exact edgeDecode_edgeEncode nx ny rows e' hv'
+    have hm := (edgeCubesC_mem_iff nx ny rows e' (cubeCoord nx ny c) hv' hvc).2 he'
+    exact (mem_edgeCubes_iff nx ny rows e c).2 ⟨cubeCoord nx ny c, by rw [hdec]; exact hm, cubeIdx_cubeCoord nx ny c⟩
+
+/-! ### one quad per active edge -/
+
+theorem edgeEncode_lt (nx ny rows : Nat) (e : EdgeC) (h : validEdge nx ny rows e = true) :
+    edgeEncode nx ny e < numEdges nx ny rows := by
+  rcases e with ⟨ax, x, y, z⟩
+  have hLdef : layerEdges nx ny = xCount nx ny + yCount nx ny + zCount nx ny := rfl
+  unfold numEdges
+  match ax, h with
+  | 0, h =>
+    simp only [validEdge, Bool.and_eq_true, decide_eq_true_eq] at h
+    have hr : (nx - 1) * y + x < xCount nx ny := mul_add_lt (nx - 1) y x ny (by omega) (by omega)
+    have h1 : z * layerEdges nx ny ≤ (rows - 1) * layerEdges nx ny := Nat.mul_le_mul_right _ (by omega)
+    have h2 : (rows - 1) * layerEdges nx ny
+        = (rows - 1) * (xCount nx ny + yCount nx ny) + (rows - 1) * zCount nx ny := by
+      rw [hLdef, Nat.mul_add]
+    have h3 : (xCount nx ny + yCount nx ny) * rows
+        = (rows - 1) * (xCount nx ny + yCount nx ny) + (xCount nx ny + yCount nx ny) := by
+      conv_lhs => rw [show rows = (rows - 1) + 1 by omega]
+      rw [Nat.mul_add, Nat.mul_one, Nat.mul_comm]
+    have h4 : zCount nx ny * (rows - 1) = (rows - 1) * zCount nx ny := Nat.mul_comm _ _
+    simp only [edgeEncode, xEdgeIdx]
+    omega
+  | 1, h =>
+    simp only [validEdge, Bool.and_eq_true, decide_eq_true_eq] at h
+    have hr : nx * y + x < yCount nx ny := by
+      unfold yCount; rw [Nat.mul_comm (ny - 1)]; exact mul_add_lt nx y x (ny - 1) (by omega) (by omega)
+    have h1 : z * layerEdges nx ny ≤ (rows - 1) * layerEdges nx ny := Nat.mul_le_mul_right _ (by omega)
+    have h2 : (rows - 1) * layerEdges nx ny
+        = (rows - 1) * (xCount nx ny + yCount nx ny) + (rows - 1) * zCount nx ny := by
+      rw [hLdef, Nat.mul_add]
+    have h3 : (xCount nx ny + yCount nx ny) * rows
+        = (rows - 1) * (xCount nx ny + yCount nx ny) + (xCount nx ny + yCount nx ny) := by
+      conv_lhs => rw [show rows = (rows - 1) + 1 by omega]
+      rw [Nat.mul_add, Nat.mul_one, Nat.mul_comm]
+    have h4 : zCount nx ny * (rows - 1) = (rows - 1) * zCount nx ny := Nat.mul_comm _ _
+    simp only [edgeEncode, yEdgeIdx]
+    omega
+  | 2, h =>
+    simp only [validEdge, Bool.and_eq_true, decide_eq_true_eq] at h
+    have hr : nx * y + x < zCount nx ny := mul_add_lt nx y x ny (by omega) (by omega)
+    have h1 : (z + 1) * layerEdges nx ny ≤ (rows - 1) * layerEdges nx ny := Nat.mul_le_mul_right _ (by omega)
+    have h1' : (z + 1) * layerEdges nx ny = z * layerEdges nx ny + layerEdges nx ny := by
+      rw [Nat.add_mul, Nat.one_mul]
+    have h2 : (rows - 1) * layerEdges nx ny
+        = (rows - 1) * (xCount nx ny + yCount nx ny) + (rows - 1) * zCount nx ny := by
+      rw [hLdef, Nat.mul_add]
+    have h3 : (rows - 1) * (xCount nx ny + yCount nx ny) ≤ (xCount nx ny + yCount nx ny) * rows := by
+      rw [Nat.mul_comm]; exact Nat.mul_le_mul_left _ (Nat.sub_le _ _)
+    have h4 : zCount nx ny * (rows - 1) = (rows - 1) * zCount nx ny := Nat.mul_comm _ _
+    simp only [edgeEncode, zEdgeIdx]
+    omega
+  | n + 3, h => simp [validEdge] at h
+
+theorem allEdges_nodup (nx ny rows : Nat) : (allEdges nx ny rows).Nodup := by
+  unfold allEdges
+  exact List.Nodup.map (Function.LeftInverse.injective (edgeEncode_edgeDecode nx ny)) List.nodup_range
+
+theorem mem_allEdges (nx ny rows : Nat) (e : EdgeC) :
+    e ∈ allEdges nx ny rows ↔ validEdge nx ny rows e = true := by
+  unfold allEdges
+  simp only [List.mem_map, List.mem_range]
+  constructor
+  · rintro ⟨i, hi, rfl⟩; exact validEdge_of_lt nx ny rows i hi
+  · intro h; exact ⟨edgeEncode nx ny e, edgeEncode_lt nx ny rows e h, edgeDecode_edgeEncode nx ny rows e h⟩
+
+/-- The edges `appendMesh` emits a quad for, each exactly once: precisely the lattice edges whose
+end labels differ. -/
+theorem quads_count (nx ny rows : Nat) (lab : Lab) (e : EdgeC) :
+    ((quads nx ny rows lab).map Prod.fst).count e =
+      if validEdge nx ny rows e = true ∧ active lab e = true then 1 else 0 := by
+  have hmap : (quads nx ny rows lab).map Prod.fst = (allEdges nx ny rows).filter (active lab) := by
+    unfold quads; rw [List.map_map]; exact List.map_id' _ (fun _ => rfl) |>.trans rfl |> fun h => by
+      simpa [Function.comp_def] using h
+  rw [hmap]
+  have hnd : ((allEdges nx ny rows).filter (active lab)).Nodup := (allEdges_nodup nx ny rows).filter _
+  by_cases h : validEdge nx ny rows e = true ∧ active lab e = true
+  · rw [if_pos h]
+    exact List.count_eq_one_of_mem hnd (List.mem_filter.2 ⟨(mem_allEdges nx ny rows e).2 h.1, h.2⟩)
+  · rw [if_neg h]
+    apply List.count_eq_zero_of_not_mem
+    intro hm
+    have := List.mem_filter.1 hm
+    exact h ⟨(mem_allEdges nx ny rows e).1 this.1, this.2⟩
+
+/-- The labelling is `false` on the outer layer of the point lattice (otherwise `appendMesh`
+panics: "solid is true outside of bounds"). -/
+def EmptyBorder (nx ny rows : Nat) (lab : Lab) : Prop :=
+  ∀ x y z, (x = 0 ∨ x + 1 = nx ∨ y = 0 ∨ y + 1 = ny ∨ z = 0 ∨ z + 1 = rows) → lab x y z = false
+
+theorem active_interior (nx ny rows : Nat) (lab : Lab) (hb : EmptyBorder nx ny rows lab) (e : EdgeC)
+    (hv : validEdge nx ny rows e = true) (ha : active lab e = true) : interiorEdge nx ny rows e = true := by
+  rcases e with ⟨ax, x, y, z⟩
+  match ax, hv, ha with
+  | 0, hv, ha =>
+    simp only [validEdge, Bool.and_eq_true, decide_eq_true_eq] at hv
+    simp only [active, edgeCornersC, bne_iff_ne, ne_eq] at ha
+    simp only [interiorEdge, Bool.and_eq_true, decide_eq_true_eq]
+    by_contra hcon
+    have h1 := hb x y z (by omega)
+    have h2 := hb (x + 1) y z (by omega)
+    exact ha (h1.trans h2.symm)
+  | 1, hv, ha =>
+    simp only [validEdge, Bool.and_eq_true, decide_eq_true_eq] at hv
+    simp only [active, edgeCornersC, bne_iff_ne, ne_eq] at ha
+    simp only [interiorEdge, Bool.and_eq_true, decide_eq_true_eq]
+    by_contra hcon
+    have h1 := hb x y z (by omega)
+    have h2 := hb x (y + 1) z (by omega)
+    exact ha (h1.trans h2.symm)
+  | 2, hv, ha =>
+    simp only [validEdge, Bool.and_eq_true, decide_eq_true_eq] at hv
+    simp only [active, edgeCornersC, bne_iff_ne, ne_eq] at ha
+    simp only [interiorEdge, Bool.and_eq_true, decide_eq_true_eq]
+    by_contra hcon
+    have h1 := hb x y z (by omega)
+    have h2 := hb x y (z + 1) (by omega)
+    exact ha (h1.trans h2.symm)
+  | n + 3, hv, _ => simp [validEdge] at hv
+
+theorem quadOf_interior (nx ny rows : Nat) (lab : Lab) (e : EdgeC) (h : interiorEdge nx ny rows e = true) :
+    quadOf nx ny rows lab e = some (if lab e.x e.y e.z then (fourCells e).reverse else fourCells e) := by
+  unfold quadOf
+  rw [edgeCubesC_interior nx ny rows e h]
+  have : ((fourCells e).map some).mapM id = some (fourCells e) := by
+    rcases e with ⟨ax, x, y, z⟩
+    match ax with
+    | 0 => rfl
+    | 1 => rfl
+    | n + 2 => rfl
+  rw [this]
+  by_cases hl : lab e.x e.y e.z = true <;> simp [hl]
+
+/-! ### orientation -/
+
+theorem quad_orientation_cells (e : EdgeC) (hx : e.axis ≠ 0 → 1 ≤ e.x) (hy : e.axis ≠ 1 → 1 ≤ e.y)
+    (hz : e.axis ≠ 2 → 1 ≤ e.z) (ha : e.axis < 3) (b : Bool) :
+    quadNormalsAlong e.axis b (if b then (fourCells e).reverse else fourCells e) = true := by
+  rcases e with ⟨ax, x, y, z⟩
+  simp only at hx hy hz ha
+  match ax, hx, hy, hz, ha with
+  | 0, _, hy, hz, _ =>
+    have e1 : ((y - 1 : Nat) : Int) = (y : Int) - 1 := by have := hy (by decide); omega
+    have e2 : ((z - 1 : Nat) : Int) = (z : Int) - 1 := by have := hz (by decide); omega
+    cases b <;>
+      simp only [fourCells, List.reverse_cons, List.reverse_nil, List.nil_append, List.cons_append, if_true, if_false,
+        Bool.false_eq_true, quadNormalsAlong, List.map_cons, List.map_nil, centre, triNormalAxis, icross, isub, comp,
+        List.all_cons, List.all_nil, Bool.and_true, Bool.and_eq_true, decide_eq_true_eq, e1, e2] <;>
+      (refine ⟨?_, ?_, ?_, ?_⟩ <;> ring_nf <;> norm_num)
+  | 1, hx, _, hz, _ =>
+    have e1 : ((x - 1 : Nat) : Int) = (x : Int) - 1 := by have := hx (by decide); omega
+    have e2 : ((z - 1 : Nat) : Int) = (z : Int) - 1 := by have := hz (by decide); omega
+    cases b <;>
+      simp only [fourCells, List.reverse_cons, List.reverse_nil, List.nil_append, List.cons_append, if_true, if_false,
+        Bool.false_eq_true, quadNormalsAlong, List.map_cons, List.map_nil, centre, triNormalAxis, icross, isub, comp,
+        List.all_cons, List.all_nil, Bool.and_true, Bool.and_eq_true, decide_eq_true_eq, e1, e2] <;>
+      (refine ⟨?_, ?_, ?_, ?_⟩ <;> ring_nf <;> norm_num)
+  | 2, hx, hy, _, _ =>
+    have e1 : ((x - 1 : Nat) : Int) = (x : Int) - 1 := by have := hx (by decide); omega
+    have e2 : ((y - 1 : Nat) : Int) = (y : Int) - 1 := by have := hy (by decide); omega
+    cases b <;>
+      simp only [fourCells, List.reverse_cons, List.reverse_nil, List.nil_append, List.cons_append, if_true, if_false,
+        Bool.false_eq_true, quadNormalsAlong, List.map_cons, List.map_nil, centre, triNormalAxis, icross, isub, comp,
+        List.all_cons, List.all_nil, Bool.and_true, Bool.and_eq_true, decide_eq_true_eq, e1, e2] <;>
+      (refine ⟨?_, ?_, ?_, ?_⟩ <;> ring_nf <;> norm_num)
+  | n + 3, _, _, _, ha => omega
+
+theorem quadOrientedOk_interior (nx ny rows : Nat) (lab : Lab) (e : EdgeC)
+    (h : interiorEdge nx ny rows e = true) : quadOrientedOk nx ny rows lab e = true := by
+  unfold quadOrientedOk
+  rw [quadOf_interior nx ny rows lab e h]
+  rcases e with ⟨ax, x, y, z⟩
+  match ax, h with
+  | 0, h =>
+    simp only [interiorEdge, Bool.and_eq_true, decide_eq_true_eq] at h
+    exact quad_orientation_cells ⟨0, x, y, z⟩ (by simp) (by intro; simp only; omega) (by intro; simp only; omega) (by decide) _
+  | 1, h =>
+    simp only [interiorEdge, Bool.and_eq_true, decide_eq_true_eq] at h
+    exact quad_orientation_cells ⟨1, x, y, z⟩ (by intro; simp only; omega) (by simp) (by intro; simp only; omega) (by decide) _
+  | 2, h =>
+    simp only [interiorEdge, Bool.and_eq_true, decide_eq_true_eq] at h
+    exact quad_orientation_cells ⟨2, x, y, z⟩ (by intro; simp only; omega) (by intro; simp only; omega) (by simp) (by decide) _
+  | n + 3, h => simp [interiorEdge] at h
+
+/-! ### clipping and the winding of a quad round its edge, over a linear ordered field -/
+
+section field
+variable {K : Type} [Field K] [LinearOrder K] [IsStrictOrderedRing K]
+
+theorem clip1_in (p lo hi m : K) (hm : 0 ≤ m) (h2 : 2 * m ≤ hi - lo) :
+    lo + m ≤ clip1 p lo hi m ∧ clip1 p lo hi m ≤ hi - m := by
+  unfold clip1 smin smax
+  by_cases h1 : p < lo + m
+  · simp only [h1, if_true]
+    by_cases h3 : hi + -m < lo + m
+    · simp only [h3, if_true]; constructor <;> linarith
+    · simp only [h3, if_false]; constructor <;> linarith
+  · simp only [h1, if_false]
+    by_cases h3 : hi + -m < p
+    · simp only [h3, if_true]; constructor <;> linarith
+    · simp only [h3, if_false]; constructor <;> linarith
+
+/-- `u × v` in the plane orthogonal to the edge. -/
+def cross2 (u v : K × K) : K := u.1 * v.2 - u.2 * v.1
+
+end field
 
 end M3d.DC
